@@ -811,9 +811,12 @@ pub mod system_time_conversion {
                 i64::try_from(micros).ok()
             }
             Err(e) => {
-                // Safely convert to i64 microseconds (negative), or return None.
+                // Safely convert to i64 microseconds (negative), or return None.  Negate in i128 so
+                // that exactly i64::MIN microseconds (whose magnitude doesn't fit i64) is kept.
                 let micros: u128 = e.duration().as_micros();
-                i64::try_from(micros).ok().and_then(i64::checked_neg)
+                i128::try_from(micros)
+                    .ok()
+                    .and_then(|micros| i64::try_from(-micros).ok())
             }
         }
     }
